@@ -49,6 +49,31 @@ Definition str_of_Z (z : Z) : str :=
   | Zneg p => 45 :: str_of_N (Npos p)
   end.
 
+(* repr(float) in positional notation: the harness encodes a float whose repr is [-]ddd.ddd as
+   VFloat (digits without the dot) (10^k), k = number of fractional digits; anything else
+   (exponent form, inf, nan) has a denominator that is not 10^k, k >= 1, and is not modelled *)
+Fixpoint pow10k (fuel : nat) (d : N) : option nat :=
+  match fuel with
+  | O => None
+  | S f => if N.eqb d 1 then Some O
+           else if N.eqb (d mod 10) 0 then match pow10k f (d / 10) with Some k => Some (S k) | None => None end
+           else None
+  end.
+Definition str_of_float (n d : Z) : res str :=
+  match d with
+  | Zpos dp =>
+      match pow10k 40 (Npos dp) with
+      | Some (S k) =>
+          let a := Z.abs_N n in
+          let ip := str_of_N (a / Npos dp) in
+          let fp := str_of_N (a mod Npos dp) in
+          let fp' := repeat 48 (S k - length fp) ++ fp in
+          Ret ((if Z.ltb n 0 then [45] else []) ++ ip ++ [46] ++ fp')
+      | _ => Raise Unmodelled
+      end
+  | _ => Raise Unmodelled
+  end.
+
 Definition py_str (v : val) : res str :=
   match v with
   | VStr s => Ret s
@@ -56,7 +81,7 @@ Definition py_str (v : val) : res str :=
   | VBool true => Ret [84; 114; 117; 101]            (* "True"  *)
   | VBool false => Ret [70; 97; 108; 115; 101]       (* "False" *)
   | VNone => Ret [78; 111; 110; 101]                 (* "None"  *)
-  | VFloat _ _ => Raise Unmodelled                   (* repr(float) is not modelled *)
+  | VFloat n d => str_of_float n d
   end.
 
 (* node.get_attr(k): first binding, None when absent *)
@@ -196,9 +221,39 @@ Definition floatish (c : N) : bool :=
   is_digit c || (c <? 33) || (128 <=? c)
   || memN c [46; 43; 45; 95; 101; 69;                 (* . + - _ e E *)
              105; 110; 102; 116; 121; 97; 73; 78; 70; 84; 89; 65].  (* inf nan infinity *)
+(* float(s) for s = [-]digits[.digits] with at most 15 digits (exactly representable decimal input
+   whose repr gives the same digits back, up to trailing zeros) *)
+Fixpoint span_digits (s : str) : str * str :=
+  match s with
+  | c :: r => if is_digit c then let (a, b) := span_digits r in (c :: a, b) else ([], s)
+  | [] => ([], [])
+  end.
+Fixpoint pow10 (k : nat) : N := match k with O => 1 | S j => 10 * pow10 j end.
+Definition decimal_val (s : str) : option val :=
+  let (neg, body) := match s with c :: r => if N.eqb c 45 then (true, r) else (false, s) | [] => (false, s) end in
+  let (ip, r1) := span_digits body in
+  let sign := fun z : Z => if neg then Z.opp z else z in
+  match ip, r1 with
+  | _ :: _, [] => if Nat.leb (length ip) 15 then Some (VFloat (sign (Z.of_N (N_of_digits ip))) 1) else None
+  | _ :: _, c :: r2 =>
+      if N.eqb c 46 then
+        let (fp, r3) := span_digits r2 in
+        match fp, r3 with
+        | _ :: _, [] =>
+            if Nat.leb (length ip + length fp) 15
+            then Some (VFloat (sign (Z.of_N (N_of_digits (ip ++ fp)))) (Z.of_N (pow10 (length fp))))
+            else None
+        | _, _ => None
+        end
+      else None
+  | _, _ => None
+  end.
+
 (* int(s) if s.isdigit() else float(s) *)
 Definition length_val (s : str) : res val :=
   if forallb is_digit s then Ret (VInt (Z.of_N (N_of_digits s)))
+  else if match decimal_val s with Some _ => true | None => false end
+       then match decimal_val s with Some v => Ret v | None => Raise Unmodelled end
   else if negb (forallb floatish s) then Raise ValueError
   else if negb (existsb is_digit s) && negb (existsb (fun c => N.eqb c 110 || N.eqb c 78) s)
        then Raise ValueError                    (* no digit and no n/N: neither a number nor inf/nan *)
@@ -429,6 +484,16 @@ Definition yield_tree (st : style) (t : tree) : res (list (str * str * str)) :=
   then Ret (yield_go st (repeat 32 (length stem)) [] (pre_info 0 false t))
   else Raise ValueError.
 
+(* get_subtree(tree, "", max_depth) -> prune_tree(max_depth): `del children` at level max_depth *)
+Fixpoint prune_levels (k : nat) (t : tree) : tree :=
+  match t with
+  | T g n a ks => match k with
+                  | O | S O => T g n a []
+                  | S k' => T g n a (map (prune_levels k') ks)
+                  end
+  end.
+Definition prune_depth (md : nat) (t : tree) : tree := match md with O => t | _ => prune_levels md t end.
+
 (* print(f"{pre_str}{fill_str}{node_str}") for every triple, into one text stream *)
 Definition print_str (st : style) (t : tree) : res str :=
   match yield_tree st t with
@@ -517,5 +582,86 @@ Definition str_to_tree_m (s : str) : res tree :=
             | _ => Raise Unmodelled
             end
         end
+    end
+  end.
+
+(* ------------------------------------------------------------------------------------------ *)
+(* str_to_tree with tree_prefix_list = literal prefixes (no regex metacharacter, non-empty):     *)
+(*   node_name = re.split("|".join(prefixes), node_str)[-1].lstrip()                            *)
+
+Definition regex_meta (c : N) : bool :=
+  memN c [46; 94; 36; 42; 43; 63; 123; 125; 91; 93; 92; 124; 40; 41].   (* . ^ $ * + ? { } [ ] \ | ( ) *)
+(* non-ASCII characters str.lstrip() also strips *)
+Definition uni_space (c : N) : bool :=
+  memN c [133; 160; 5760; 8232; 8233; 8239; 8287; 12288] || ((8192 <=? c) && (c <=? 8202)).
+Definition plist_modelled (pl : list str) : bool :=
+  forallb (fun p => negb (is_nil p) && negb (existsb regex_meta p)) pl.
+
+Fixpoint first_match (pl : list str) (s : str) : option str :=
+  match pl with
+  | [] => None
+  | p :: r => if startswith s p then Some p else first_match r s
+  end.
+(* text after the last (leftmost, non-overlapping, alternatives in order) match *)
+Fixpoint last_piece (pl : list str) (s : str) (skip : nat) (cur : str) : str :=
+  match s with
+  | [] => rev cur
+  | c :: r =>
+      match skip with
+      | S k => last_piece pl r k cur
+      | O => match first_match pl s with
+             | Some p => last_piece pl r (length p - 1) []
+             | None => last_piece pl r 0 (c :: cur)
+             end
+      end
+  end.
+
+Fixpoint st_lines_p (pl : list str) (lines : list str) (plen : option nat) (curd : nat)
+  : res (list (nat * str)) :=
+  match lines with
+  | [] => Ret []
+  | line :: r =>
+      if existsb uni_space line then Raise Unmodelled else
+      let name := lstrip_ws (last_piece pl line 0 []) in
+      match find_sub line name with
+      | None => Raise ValueError
+      | Some npl =>
+          let p := match plen with Some p => p | None => npl end in
+          if Nat.eqb p 0 then Raise ValueError
+          else if negb (Nat.eqb (npl mod p) 0) then Raise ValueError
+          else
+            let k := (npl / p)%nat in
+            if Nat.eqb k 0 then Raise AttributeError
+            else if is_nil name then Raise TreeError
+            else
+              let d := Nat.min curd k in
+              match st_lines_p pl r (Some p) (S d) with
+              | Raise e => Raise e
+              | Ret l => Ret ((d, name) :: l)
+              end
+      end
+  end.
+
+Definition str_to_tree_p (pl : list str) (s : str) : res tree :=
+  match pl with
+  | [] => str_to_tree_m s
+  | _ =>
+    if negb (plist_modelled pl) then Raise Unmodelled else
+    let s' := strip s [10] in
+    match s' with
+    | [] => Raise ValueError
+    | _ =>
+      match split_on 10 s' with
+      | [] => Raise Unmodelled
+      | root :: rest =>
+          match st_lines_p pl rest None 1 with
+          | Raise e => Raise e
+          | Ret entries =>
+              match forest_of_pre mk_plain (S (length entries)) 0 ((0%nat, root) :: entries) with
+              | [t] => if sib_dups t then Raise TreeError else Ret t
+              | _ => Raise Unmodelled
+              end
+          end
+      end
     end
   end.
